@@ -1,0 +1,37 @@
+//go:build verif
+
+package sharding
+
+// Contracts for govc (see /verif/DESIGN.md §5 C17). Comment-only; compiled
+// only under the build tag "verif".
+
+//@ func Shard_r133(key, shards)
+//@   requires shards != nil
+//@   assigns *shards, cells(*shards)
+//@   ensures[C17] len(*shards) == old(len(*shards)) + 3 && (*shards)[len(*shards)-1] == key
+//@   ensures[C17] len((*shards)[len(*shards)-3]) == 3 && len((*shards)[len(*shards)-2]) == 3
+//@   ensures[C17] len(key) > 6 ==> (*shards)[len(*shards)-3] == substr(key, len(key)-7, len(key)-4)
+//@   ensures[C17] len(key) > 3 ==> (*shards)[len(*shards)-2] == substr(key, len(key)-4, len(key)-1)
+//@   ensures[C17] len(key) <= 6 ==> (*shards)[len(*shards)-3] == "000"
+//@   ensures[C17] len(key) <= 3 ==> (*shards)[len(*shards)-2] == "000"
+//@   ensures[C17] forall i mathint :: 0 <= i && i < old(len(*shards)) ==> (*shards)[i] == old((*shards)[i])
+
+//@ func Shard_r122(key, shards)
+//@   requires shards != nil
+//@   assigns *shards, cells(*shards)
+//@   ensures[C17] len(*shards) == old(len(*shards)) + 3 && (*shards)[len(*shards)-1] == key
+//@   ensures[C17] len((*shards)[len(*shards)-3]) == 2 && len((*shards)[len(*shards)-2]) == 2
+//@   ensures[C17] len(key) > 4 ==> (*shards)[len(*shards)-3] == substr(key, len(key)-5, len(key)-3)
+//@   ensures[C17] len(key) > 2 ==> (*shards)[len(*shards)-2] == substr(key, len(key)-3, len(key)-1)
+//@   ensures[C17] len(key) <= 4 ==> (*shards)[len(*shards)-3] == "00"
+//@   ensures[C17] len(key) <= 2 ==> (*shards)[len(*shards)-2] == "00"
+//@   ensures[C17] forall i mathint :: 0 <= i && i < old(len(*shards)) ==> (*shards)[i] == old((*shards)[i])
+
+//@ func Shard_r12(key, shards)
+//@   requires shards != nil
+//@   assigns *shards, cells(*shards)
+//@   ensures[C17] len(*shards) == old(len(*shards)) + 2 && (*shards)[len(*shards)-1] == key
+//@   ensures[C17] len((*shards)[len(*shards)-2]) == 2
+//@   ensures[C17] len(key) > 2 ==> (*shards)[len(*shards)-2] == substr(key, len(key)-3, len(key)-1)
+//@   ensures[C17] len(key) <= 2 ==> (*shards)[len(*shards)-2] == "00"
+//@   ensures[C17] forall i mathint :: 0 <= i && i < old(len(*shards)) ==> (*shards)[i] == old((*shards)[i])
